@@ -1079,6 +1079,43 @@ Proof.
   rewrite H in Hs. inversion Hs; subst. destruct (Hfail Hrf Hns). auto.
 Qed.
 
+(* C14 M1 for the array, the exact condition: the error value is returned exactly when the
+   allocator refused a request OR the requested byte count is not representable in size_t
+   (ENOMEM without any allocation attempted) *)
+Definition ea_unrep (op : ea_op) (st : option (list N)) : bool :=
+  match op, st with
+  | OInit nrec reclen _, None => negb (representable (nrec * reclen))
+  | OResize nrec reclen _, Some _ => negb (representable (nrec * reclen))
+  | OAppend _ nrec reclen, Some l =>
+    negb (representable (nrec * reclen)) || negb (representable (ideal_len l + nrec * reclen))
+  | _, _ => false
+  end.
+
+Theorem ea_fail_iff ssz op st o x st' o' ev :
+  st_inv st -> ea_op_ok op ->
+  ea_step 2 4 2 ssz op st o = Ok (x, st', o', ev) ->
+  is_shrink op = false ->
+  (x = ea_err_out op <-> refused ev = true \/ ea_unrep op (st_abs st) = true).
+Proof.
+  intros Hi Hok H Hns.
+  destruct (ea_step_ok ssz op st o Hi Hok) as (x1 & st1 & o1 & ev1 & Hs & _ & Hspec & Hfail & _).
+  rewrite H in Hs. inversion Hs; subst. split.
+  - intros Hx. destruct (refused ev1) eqn:Hrf; [left; reflexivity|]. right.
+    rewrite Hx in Hspec.
+    destruct op, st as [e|]; cbn [st_abs option_map ea_spec_step ea_err_out ea_unrep orb] in *;
+      try discriminate;
+      repeat match type of Hspec with
+             | context [representable ?a] => destruct (representable a); cbn [negb orb] in *
+             end; try discriminate; try reflexivity.
+    destruct (_ <? _); discriminate.
+  - intros [Hrf|Hun]; [destruct (Hfail Hrf Hns); assumption|].
+    destruct op, st as [e|]; cbn [st_abs option_map ea_spec_step ea_err_out ea_unrep] in *;
+      try discriminate.
+    + rewrite Hun, Bool.orb_true_r in Hspec. inversion Hspec; reflexivity.
+    + rewrite Hun, Bool.orb_true_r in Hspec. inversion Hspec; reflexivity.
+    + rewrite <- Bool.orb_assoc, Hun, Bool.orb_true_r in Hspec. inversion Hspec; reflexivity.
+Qed.
+
 (* C14 M2 for the array: shrink and free return normally and do what the ideal array does,
    whatever the allocator answers (in particular when it refuses everything) *)
 Theorem ea_infallible ssz op e o :
